@@ -148,6 +148,31 @@ func (r *Reader) Check(b []byte, v *Val, path string) {
 		} else if !bytes.Equal(b[:ds], want) {
 			r.errf(path, "struct data differs")
 		}
+	case "struct":
+		// typed struct (generated code): fields are consecutive values, delimited from the end
+		ds, n, err := spec.DecodeStruct(b)
+		if err != nil || n != len(b) || ds > len(b) {
+			r.errf(path, "DecodeStruct = (%d, %d, %v) total %d", ds, n, err, len(b))
+			return
+		}
+		fs, ferr := v.StructFields()
+		if ferr != nil {
+			r.errf(path, "harness: %v", ferr)
+			return
+		}
+		off := ds
+		for i := len(fs) - 1; i >= 0; i-- {
+			_, sz, err := spec.DecodeTypeSize(b[:off])
+			if err != nil || sz > off {
+				r.errf(path, "struct field %d: DecodeTypeSize = (%d, %v) of %d", i, sz, err, off)
+				return
+			}
+			r.Check(b[off-sz:off], &fs[i], fmt.Sprintf("%s.%d", path, i))
+			off -= sz
+		}
+		if off != 0 {
+			r.errf(path, "struct data has %d bytes before its first field", off)
+		}
 	case "list":
 		r.checkList(b, v, path)
 	case "msg":
